@@ -417,3 +417,57 @@ Example Multi_hypotheses_satisfiable :
   cfg_valid unit ex2_cfg /\ sched_ok (fun _ => 0) (ex2_schedule 300) /\ apps_total unit unit_app_ops /\
   medium_bytes (ideal_medium 500000).
 Proof. exact ex2_hypotheses. Qed.
+
+(* ------------------------------------------------------------------------------------ STRETCH *)
+(* A GLOBAL fact, on the concrete medium ideal_medium (Proofs/MultiHandover.v): token hand-over between
+   two stations ia, ib of a composed system of any size.  Multi_ideal_delivers_rest: the medium's answer
+   in the situation "last transmission on the medium is w by ia at t0, everything earlier was delivered to
+   ib by its previous poll at tp, nobody transmitted since, w is complete at t1".
+   Multi_handover_step_partial: ia has transmitted the token telegram to ib and supervises its pass
+   (CheckTokenPass - not a token holder in its own view); ib idles in the ring (ActiveIdle, no status request
+   pending) with ia as registered predecessor and the already arrived part of the telegram in its buffer.
+   Then ib's poll at a time t1 at which the telegram is complete returns, transmits nothing, makes ib the
+   token holder in its own view (UseToken t1) and leaves ia as it was: after the step exactly one of the two
+   holds the token.
+   PARTIAL: one global step, not an invariant.  Missing towards token uniqueness (at most one station with
+   have_token in every reachable state): an inductive invariant tying all stations' views to the medium's
+   history (through claims, GAP polls, retries, removals; a receiver that is itself still in CheckTokenPass,
+   as in a two-station ring, is handled by the code but not by this lemma), under assumptions that make it
+   true - loss-free medium, poll period small against Tslot, distinct addresses (cf. known classes F20 / F21). *)
+From PB Require Import MultiHandover.
+
+Theorem Multi_ideal_delivers_rest : forall (rate : Z) (h0 h1 : history) (ia ib : nat) (t0 tp t1 : Z) (w : bytes),
+  ia <> ib -> all_bytes w ->
+  last_poll (h0 ++ mkH ia t0 (Some w) :: h1) ib = Some tp ->
+  Forall (fun x => h_tx x = None) h1 ->
+  bytes_by rate t0 (length w) t1 = length w ->
+  (forall x w', In x h0 -> h_who x <> ib -> h_tx x = Some w' -> bytes_by rate (h_now x) (length w') tp = length w') ->
+  (forall x w', In x h0 -> h_who x = ib -> h_tx x = Some w' -> tx_end rate (h_now x) (length w') <= t1) ->
+  ideal_medium rate (h0 ++ mkH ia t0 (Some w) :: h1) ib t1 = (skipn (bytes_by rate t0 (length w) tp) w, false).
+Proof. exact ideal_delivers_rest. Qed.
+Print Assumptions Multi_ideal_delivers_rest.
+
+Theorem Multi_handover_step_partial : forall (A : Type) (ops : app_ops A), apps_total A ops ->
+  forall (rate : Z) (s : sys A) (ia ib : nat) (sta stb : station A) (h0 h1 : history) (t0 tp t1 : Z)
+         (nps : option Z) (cc : Z) (s' : sys A) (r : res unit),
+  let fa := st_f sta in let fb := st_f stb in
+  ia <> ib -> nth_error (sys_st s) ia = Some sta -> nth_error (sys_st s) ib = Some stb ->
+  sys_hist s = h0 ++ mkH ia t0 (Some (encode_token (ts fb) (ts fa))) :: h1 -> Forall (fun x => h_tx x = None) h1 ->
+  kind_of (f_state fa) = KCheckTokenPass -> Rep (length (st_apps sta)) fa ->
+  Rep (length (st_apps stb)) fb -> f_conn fb = ConnOnline -> f_state fb = ActiveIdle None nps cc ->
+  r_ps (f_ring fb) = ts fa -> ts fa <> ts fb ->
+  st_buf stb = firstn (bytes_by rate t0 3 tp) (encode_token (ts fb) (ts fa)) -> (f_pending fb < 3)%nat ->
+  (forall l, f_lba fb = Some l -> l < t1) -> time_ok t1 ->
+  last_poll (sys_hist s) ib = Some tp -> bytes_by rate t0 3 t1 = 3%nat ->
+  (forall x w', In x h0 -> h_who x <> ib -> h_tx x = Some w' -> bytes_by rate (h_now x) (length w') tp = length w') ->
+  (forall x w', In x h0 -> h_who x = ib -> h_tx x = Some w' -> tx_end rate (h_now x) (length w') <= t1) ->
+  multi_step A ops (ideal_medium rate) s (ib, ActPoll t1) = (s', r) ->
+  r = Ok tt /\
+  nth_error (sys_st s') ia = Some sta /\ have_token (f_state (st_f sta)) = false /\
+  exists stb', nth_error (sys_st s') ib = Some stb' /\
+    f_state (st_f stb') = UseToken t1 None false /\ have_token (f_state (st_f stb')) = true /\
+    st_buf stb' = [] /\ sys_hist s' = sys_hist s ++ [mkH ib t1 None] /\
+    exists f0, In (SPoll t1 false (skipn (bytes_by rate t0 3 tp) (encode_token (ts fb) (ts fa)))
+                         (encode_token (ts fb) (ts fa)) fb f0 (mkPhyOut None []) []) (st_log stb').
+Proof. exact handover_step_partial. Qed.
+Print Assumptions Multi_handover_step_partial.
